@@ -932,8 +932,49 @@ pub fn c06(tier: Tier) -> i32 {
     let mut res = run_cases(&ctx, 1, n, |rng, _i, st| c06_case(rng, st));
     let n2 = ctx.scale(15_000, 1_000_000);
     res.merge(run_cases(&ctx, 2, n2, |rng, _i, st| c06_general_case(rng, st)));
+    // stream 3: the repository's corpora (mode files with their inputs) re-tokenized in lock step
+    // by the real scanner and by the derivative-based reference tokenizer with modes and lookaheads
+    #[cfg(feature = "hooks")]
+    {
+        let mut pairs: Vec<(String, String)> = vec![
+            ("/repo/scnr/benches/veryl_modes.json".into(), "/repo/scnr/benches/veryl_input.veryl".into()),
+            ("/repo/scnr/tests/data/parol.json".into(), "/repo/scnr/benches/input_1.par".into()),
+        ];
+        if let Ok(rd) = std::fs::read_dir("/repo/scnr/tests/data") {
+            let mut fs: Vec<_> = rd.flatten().map(|e| e.path()).filter(|p| p.extension().map_or(false, |e| e == "json") && !p.to_string_lossy().contains("_tokens")).collect();
+            fs.sort();
+            for f in fs {
+                pairs.push((f.to_string_lossy().to_string(), f.with_extension("input").to_string_lossy().to_string()));
+            }
+        }
+        let n3 = pairs.len() as u64;
+        res.merge(run_cases(&ctx, 3, n3, |_rng, i, st| {
+            let (mf, inf) = &pairs[i as usize];
+            let (Ok(mt), Ok(input)) = (std::fs::read_to_string(mf), std::fs::read_to_string(inf)) else { return CaseOutcome::Skipped };
+            let Ok(v) = serde_json::from_str::<serde_json::Value>(&mt) else { return CaseOutcome::Skipped };
+            let Some(cfg) = crate::checks_tok::cfg_from_json(&v) else {
+                st.count("corpus_not_convertible");
+                return CaseOutcome::Skipped;
+            };
+            let scanner = match build_any(&cfg, false) {
+                Ok(s) => s,
+                Err(e) => return CaseOutcome::Violated(Violation::new(format!("{}: {}", mf, e), json!({"kind": "c06_corpus", "modes": mf}))),
+            };
+            match sut(|| crate::reftok::check_corpus(&cfg, &scanner, &input)) {
+                Ok(Ok((tokens, switches))) => {
+                    st.count("corpus_files_retokenized");
+                    st.add("corpus_tokens_checked", tokens as u64);
+                    st.add("corpus_mode_switches", switches as u64);
+                    st.nontrivial(hash_of(&(mf, inf)));
+                    CaseOutcome::Ok
+                }
+                Ok(Err(e)) => CaseOutcome::Violated(Violation::new(format!("{} on {}: {}", mf, inf, e), json!({"kind": "c06_corpus", "modes": mf, "input": inf}))),
+                Err(pm) => CaseOutcome::Violated(Violation::new(format!("{} on {}: panic: {}", mf, inf, pm), json!({"kind": "c06_corpus", "modes": mf, "input": inf}))),
+            }
+        }));
+    }
     let report = Report::new(
-        "stream 2: random multi-mode configurations over GENERAL patterns (overlapping languages, lookaheads, token types shared between modes, set_mode mid-stream): every token must be the one the tokenizer rule of the reference semantics gives for the patterns of the model's current mode, and current_mode() must follow the configured transitions. stream 1: random mode graphs (1-4 modes; per mode 1-5 keyword patterns with pairwise distinct first letters so that the expected stream is computable by a 10-line function; token types drawn from a pool shared between modes, incl. values above 65535; 0-3 sorted transitions per mode to existing modes incl. self-loops and entries for token types the mode never produces), 1-3 iterations per scanner with Scanner::set_mode in between, histories of next / peek_n / set_mode / current_mode / mode_name on FindMatches and through WithPositions. Oracle: sequential model (position, mode); every token, every current_mode() reading after every call and every mode_name are compared. Distinct by hash of (configuration, plans).",
+        "stream 3: the repository's mode files with their inputs (veryl_modes.json + veryl_input.veryl, parol.json + input_1.par, tests/data/*.json + *.input) re-tokenized in lock step by the real scanner and by a derivative-based reference tokenizer with modes and lookaheads. stream 2: random multi-mode configurations over GENERAL patterns (overlapping languages, lookaheads, token types shared between modes, set_mode mid-stream): every token must be the one the tokenizer rule of the reference semantics gives for the patterns of the model's current mode, and current_mode() must follow the configured transitions. stream 1: random mode graphs (1-4 modes; per mode 1-5 keyword patterns with pairwise distinct first letters so that the expected stream is computable by a 10-line function; token types drawn from a pool shared between modes, incl. values above 65535; 0-3 sorted transitions per mode to existing modes incl. self-loops and entries for token types the mode never produces), 1-3 iterations per scanner with Scanner::set_mode in between, histories of next / peek_n / set_mode / current_mode / mode_name on FindMatches and through WithPositions. Oracle: sequential model (position, mode); every token, every current_mode() reading after every call and every mode_name are compared. Distinct by hash of (configuration, plans).",
     )
     .floor("switch_taken", 10_000)
     .floor("token_without_transition", 10_000)
@@ -946,6 +987,8 @@ pub fn c06(tier: Tier) -> i32 {
     .floor("cached_sibling_with_other_transitions_built_first", 1000)
     .floor("general_tokens_checked", 20_000)
     .floor("general_switch_to_other_mode", 2_000);
+    #[cfg(feature = "hooks")]
+    let report = if std::env::var("VERIF_HOOKS").map_or(true, |v| v != "0") { report.floor("corpus_tokens_checked", 10_000) } else { report };
     finish(&ctx, res, report)
 }
 
